@@ -53,7 +53,7 @@ def lhnew(name, method_file, tiers, extra_defs=(), props_extra=(), big=None):
     g('start_new_block', 'h_start_new_block', enforce='start_new_block', timeout=600,
       replace=['read_bits', 'read_temp_table', 'read_code_table', 'read_offset_table'])
     g('read_code', 'h_read_code', enforce='read_code', defs=['VG_RT=1'], replace=['read_from_tree'])
-    g('read_offset_code', 'h_read_offset_code', enforce='read_offset_code', defs=['VG_RT=2'],
+    g('read_offset_code', 'h_read_offset_code', enforce='read_offset_code', defs=['VG_RT=2'], props=P + ['C01'],
       replace=['read_from_tree', 'read_bits'] + (['lhark_read_offset_code'] if 'lk7' in name else []))
     if 'lk7' in name:
         g('lhark_read_offset_code', 'h_lhark_read_offset_code', enforce='lhark_read_offset_code', replace=['read_bits'],
